@@ -694,7 +694,7 @@ func (d *Data) cleaveIndex(v dvid.VersionID, op labels.CleaveOp, info dvid.ModIn
 // ChangeLabelIndex applies changes to a label's index and then stores the result.
 // Supervoxel size changes for blocks should be passed into the function.  The passed
 // SupervoxelDelta can contain more supervoxels than the label index.
-func ChangeLabelIndex(d dvid.Data, v dvid.VersionID, label uint64, delta labels.SupervoxelChanges) error {
+func ChangeLabelIndex(d dvid.Data, v dvid.VersionID, label uint64, delta labels.SupervoxelChanges, members ...uint64) error {
 	shard := label % numIndexShards
 	indexMu[shard].Lock()
 	defer indexMu[shard].Unlock()
@@ -709,7 +709,7 @@ func ChangeLabelIndex(d dvid.Data, v dvid.VersionID, label uint64, delta labels.
 		idx.Label = label
 	}
 
-	if err := idx.ModifyBlocks(label, delta); err != nil {
+	if err := idx.ModifyBlocks(label, delta, members...); err != nil {
 		return err
 	}
 
@@ -934,7 +934,7 @@ type blockChange struct {
 // mutex-guarded label index mutation routine.
 func (d *Data) aggregateBlockChanges(v dvid.VersionID, svmap *VCache, ch <-chan blockChange) {
 	mappedVersions := svmap.getMappedVersionsDist(v)
-	labelset := make(labels.Set)
+	labelset := make(map[uint64][]uint64) // label -> changed supervoxels the mapping assigns to it
 	svChanges := make(labels.SupervoxelChanges)
 	var maxLabel uint64
 	for change := range ch {
@@ -943,13 +943,17 @@ func (d *Data) aggregateBlockChanges(v dvid.VersionID, svmap *VCache, ch <-chan 
 			if !found {
 				blockChanges = make(map[dvid.IZYXString]int32)
 				svChanges[supervoxel] = blockChanges
+				label, _ := svmap.mapLabel(supervoxel, mappedVersions)
+				members := labelset[label]
+				if label != 0 {
+					members = append(members, supervoxel)
+				}
+				labelset[label] = members
 			}
 			blockChanges[change.bcoord] += delta
 			if supervoxel > maxLabel {
 				maxLabel = supervoxel
 			}
-			label, _ := svmap.mapLabel(supervoxel, mappedVersions)
-			labelset[label] = struct{}{}
 		}
 	}
 	go func() {
@@ -958,8 +962,8 @@ func (d *Data) aggregateBlockChanges(v dvid.VersionID, svmap *VCache, ch <-chan 
 		}
 	}()
 	if d.IndexedLabels {
-		for label := range labelset {
-			if err := ChangeLabelIndex(d, v, label, svChanges); err != nil {
+		for label, members := range labelset {
+			if err := ChangeLabelIndex(d, v, label, svChanges, members...); err != nil {
 				dvid.Errorf("indexing label %d: %v\n", label, err)
 			}
 		}
